@@ -18,6 +18,7 @@ type c16Conn struct {
 	Header   int    `json:"header"`
 	DelayMs  int    `json:"reply_delay_ms"`
 	Stanzas  int    `json:"stanzas_after"`
+	Trailing bool   `json:"stanzas_right_behind_the_reply,omitempty"` // the server goes on sending in the same write, whatever it answered
 	EndBy    string `json:"session_ended_by,omitempty"` // how an established session ends before the next connection: close | cut
 }
 
@@ -76,6 +77,7 @@ func runC16(e *Engine, g G, o RunOpt) RunInfo {
 		c.Header = []int{HdrOK, HdrOKDecl, HdrOKForeignID}[g.N("hdr", 3)]
 		c.DelayMs = []int{0, 0, 20, 3000}[g.N("delay", 4)]
 		c.Stanzas = g.Range("stanzas", 0, 4)
+		c.Trailing = g.Pct("trailing", 30)
 		c.EndBy = []string{"close", "cut"}[g.N("endby", 2)]
 		sc.Conns = append(sc.Conns, c)
 	}
@@ -104,7 +106,20 @@ func runC16(e *Engine, g G, o RunOpt) RunInfo {
 		srv := NewServer(e, "comp."+SimDomain)
 		srv.Component = true
 		srv.Scripts = scripts
+		var reply func(c *SrvConn, digest string) string
 		srv.HandshakeOK = func(c *SrvConn, digest string) string {
+			r := reply(c, digest)
+			if r != "" && c.Idx < len(sc.Conns) && sc.Conns[c.Idx].Trailing && !strings.HasSuffix(r, "</stream:stream>") {
+				at := atts[c.Idx]
+				for k := 0; k < 2; k++ {
+					r += fmt.Sprintf("<message id='t%d-%d' from='u@%s' to='comp.%s'><body>right behind</body></message>", c.Idx, k, SimDomain, SimDomain)
+					at.sent++
+				}
+				e.Probe("c16.stanzas_right_behind_the_reply")
+			}
+			return r
+		}
+		reply = func(c *SrvConn, digest string) string {
 			if c.Idx >= len(atts) || atts[c.Idx] == nil {
 				return ""
 			}
